@@ -1,2 +1,134 @@
-(* C02 — Properties (filled in as the theorems close) *)
-From Dastard Require Import Common.ZX Pipeline.Stream C01.Model C01.Spec.
+(* C02 — property theorems only: each closed by [exact], each followed by Print Assumptions.
+
+   Setting (as in C01/Properties.v): [run (fresh_start npre nsamp ts) ops] is the mirror model's observation of a
+   channel that PrepareRun started with lengths (npre, nsamp) and restored trigger settings ts, after each operation
+   of an arbitrary history ops (blocks of any length and content, ChangeTriggerState and ConfigurePulseLengths
+   requests in any order, valid or refused).  [annotate] turns (operations, observations) into one [binfo] b per
+   delivered block: settings in force, ground truth bi_G b (all samples delivered so far), the epoch start bi_S b
+   (an epoch = maximal run of blocks between control operations), the triggers of the epoch emitted before the
+   block (bi_prev b), all earlier triggers (bi_all_prev b) and this block's (trigs b).  Spec.v evaluates the
+   criteria on the ground truth in absolute frame numbers:
+     edge_crit b k  : G'[k]+G'[k-1]-G'[k-2]-G'[k-3] >= level (rising) / <= -level (falling), G' shifted by 2^15 on signed channels
+     level_crit b k : G'[k] >= thr and G'[k-1] < thr (rising), or the mirror image
+     first_cand b = bi_S b + npre,  dec_end b = (frame after the last delivered sample) - (nsamp - npre)
+     all_trigs b = every trigger emitted up to and including this block, epoch_trigs b = those of the epoch
+     auto_dly b = max(auto delay in samples, nsamp)
+   Every statement is made for EVERY block of the history, i.e. for every prefix; taking the last block of an epoch
+   gives the statement for the whole epoch.
+   Premises: frame numbers start at F0 >= 0; valid initial lengths; record lengths that fit EMTState's int32
+   fields; a contiguous source with one sample period and one signedness per channel; edge-multi off (C08). *)
+From Dastard Require Import Common.ZX Pipeline.Stream C01.Model C01.Spec C02.Spec C02.Proofs.
+
+(* every primary record sits on a sample that satisfies an enabled criterion; for an auto trigger: no trigger of
+   the epoch in the auto delay (or one record, if longer) before it *)
+Theorem edge_sound :
+  forall npre nsamp ts F0 period sgn ops,
+    0 <= F0 -> lengths_ok npre nsamp = true -> nsamp <= max_nsamp ->
+    contiguous F0 ops -> Forall (op_ok2 period sgn) ops ->
+    exists bs, annotate F0 (init_sstate npre nsamp ts F0) (combine ops (run (fresh_start npre nsamp ts) ops)) = Some bs /\
+      forall b t, In b bs -> In t (trigs b) ->
+        (ts_edge (bi_ts b) = true /\ edge_crit b t = true) \/
+        (ts_level (bi_ts b) = true /\ level_crit b t = true) \/
+        (ts_auto (bi_ts b) = true /\ forall u, In u (epoch_trigs b) -> u < t -> auto_dly b <= t - u).
+Proof. exact st_edge_sound. Qed.
+Print Assumptions edge_sound.
+
+(* every decidable sample of the epoch that satisfies the edge criterion is a trigger or lies in the one-record
+   dead time (t, t+nsamp] after an emitted trigger t — from the first block after a start (whatever settings were
+   restored) and after every reconfiguration, for every partition into blocks *)
+Theorem edge_complete :
+  forall npre nsamp ts F0 period sgn ops,
+    0 <= F0 -> lengths_ok npre nsamp = true -> nsamp <= max_nsamp ->
+    contiguous F0 ops -> Forall (op_ok2 period sgn) ops ->
+    exists bs, annotate F0 (init_sstate npre nsamp ts F0) (combine ops (run (fresh_start npre nsamp ts) ops)) = Some bs /\
+      forall b k, In b bs -> ts_edge (bi_ts b) = true ->
+        first_cand b <= k < dec_end b -> edge_crit b k = true ->
+        exists t, In t (all_trigs b) /\ (t = k \/ t < k <= t + bi_nsamp b).
+Proof. exact st_edge_complete. Qed.
+Print Assumptions edge_complete.
+
+(* every decidable sample that satisfies the level criterion is a trigger or lies within one record length before
+   or after an emitted trigger *)
+Theorem level_complete :
+  forall npre nsamp ts F0 period sgn ops,
+    0 <= F0 -> lengths_ok npre nsamp = true -> nsamp <= max_nsamp ->
+    contiguous F0 ops -> Forall (op_ok2 period sgn) ops ->
+    exists bs, annotate F0 (init_sstate npre nsamp ts F0) (combine ops (run (fresh_start npre nsamp ts) ops)) = Some bs /\
+      forall b k, In b bs -> ts_level (bi_ts b) = true ->
+        first_cand b <= k < dec_end b -> level_crit b k = true ->
+        exists t, In t (all_trigs b) /\ Z.abs (k - t) < bi_nsamp b.
+Proof. exact st_level_complete. Qed.
+Print Assumptions level_complete.
+
+(* between reconfigurations edge-only triggering never yields overlapping records: this block's triggers are at
+   least nsamp apart from each other and from the last trigger the epoch emitted before (emission order is
+   increasing order, so by induction all successive triggers of the epoch are) *)
+Theorem edge_no_overlap :
+  forall npre nsamp ts F0 period sgn ops,
+    0 <= F0 -> lengths_ok npre nsamp = true -> nsamp <= max_nsamp ->
+    contiguous F0 ops -> Forall (op_ok2 period sgn) ops ->
+    exists bs, annotate F0 (init_sstate npre nsamp ts F0) (combine ops (run (fresh_start npre nsamp ts) ops)) = Some bs /\
+      forall b, In b bs ->
+        ts_edge (bi_ts b) = true -> ts_level (bi_ts b) = false -> ts_auto (bi_ts b) = false ->
+        match rev (bi_prev b) with
+        | [] => match trigs b with [] => True | t :: l => gaps_ge (bi_nsamp b) t l end
+        | q :: _ => gaps_ge (bi_nsamp b) q (trigs b)
+        end.
+Proof. exact st_edge_no_overlap. Qed.
+Print Assumptions edge_no_overlap.
+
+(* auto trigger on and no veto: the chain (first candidate of the epoch, or the epoch's last trigger before this
+   block) -> this block's triggers has no gap above max(delay, nsamp) + nsamp, and the last decidable candidate is
+   at most that far after the last trigger *)
+Theorem auto_gap_bound :
+  forall npre nsamp ts F0 period sgn ops,
+    0 <= F0 -> lengths_ok npre nsamp = true -> nsamp <= max_nsamp ->
+    contiguous F0 ops -> Forall (op_ok2 period sgn) ops ->
+    exists bs, annotate F0 (init_sstate npre nsamp ts F0) (combine ops (run (fresh_start npre nsamp ts) ops)) = Some bs /\
+      forall b, In b bs ->
+        ts_auto (bi_ts b) = true -> ts_autoveto (bi_ts b) <= 0 ->
+        gaps_le (auto_dly b + bi_nsamp b) (chain_start b) (trigs b) /\
+        (first_cand b < dec_end b -> dec_end b - 1 - chain_last b <= auto_dly b + bi_nsamp b).
+Proof. exact st_auto_gap_bound. Qed.
+Print Assumptions auto_gap_bound.
+
+(* the model's output passes the observable checker that the harness applies to the implementation's output *)
+Theorem model_passes_checker :
+  forall npre nsamp ts F0 period sgn ops,
+    0 <= F0 -> lengths_ok npre nsamp = true -> nsamp <= max_nsamp ->
+    contiguous F0 ops -> Forall (op_ok2 period sgn) ops ->
+    C02_check npre nsamp ts F0 (combine ops (run (fresh_start npre nsamp ts) ops)) = true.
+Proof. exact st_model_passes_checker. Qed.
+Print Assumptions model_passes_checker.
+
+(* what the checker's "true" means for ANY observed history: for every block, soundness, no overlap and the auto
+   gap bound as above, and completeness for the candidates that became decidable with that block (new_lo b =
+   max(first_cand b, block first frame - (nsamp - npre))) against the triggers emitted so far *)
+Theorem checker_sound :
+  forall npre nsamp ts F0 h,
+    C02_check npre nsamp ts F0 h = true ->
+    exists bs, annotate F0 (init_sstate npre nsamp ts F0) h = Some bs /\
+      forall b, In b bs ->
+        sound b /\
+        (ts_edge (bi_ts b) = true -> forall k, new_lo b <= k < dec_end b -> edge_crit b k = true -> edge_accounted b k) /\
+        (ts_level (bi_ts b) = true -> forall k, new_lo b <= k < dec_end b -> level_crit b k = true -> level_accounted b k) /\
+        no_overlap b /\ auto_gap b.
+Proof. exact C02_check_sound. Qed.
+Print Assumptions checker_sound.
+
+(* the two defects of the unchanged tree, stated on the pre-fix model functions kept in Model.v:
+   (a) PrepareRun left EMTState.nsamp = 0 (10 samples retained between blocks): a step at the first undecidable
+       position of a block is lost;  (b) ConfigureTrigger set LastTrigger = 0: a step in the first nsamp frames of
+       a stream starting at frame 0 is skipped with no emitted trigger to justify it.
+   In both cases the repaired model passes on the same input. *)
+Theorem edge_complete_refuted_pre_fix_a :
+  C02_check 3 12 wit_ts 0 (combine wit_a_ops (run (fresh_start_old 3 12 wit_ts) wit_a_ops)) = false /\
+  C02_check 3 12 wit_ts 0 (combine wit_a_ops (run (fresh_start 3 12 wit_ts) wit_a_ops)) = true.
+Proof. exact refuted_a. Qed.
+Print Assumptions edge_complete_refuted_pre_fix_a.
+
+Theorem edge_complete_refuted_pre_fix_b :
+  C02_check 3 12 wit_none 0 (combine wit_b_ops (run_old (fresh_start 3 12 wit_none) wit_b_ops)) = false /\
+  C02_check 3 12 wit_none 0 (combine wit_b_ops (run (fresh_start 3 12 wit_none) wit_b_ops)) = true.
+Proof. exact refuted_b. Qed.
+Print Assumptions edge_complete_refuted_pre_fix_b.
